@@ -346,7 +346,7 @@ class Ctx:
         if kf is not None:
             self.known_hits[kf["id"]] += 1
             return
-        if len(self.violations) >= 25:
+        if len(self.violations) >= 80:
             self.violations.append(None)
             return
         n = len([v for v in self.violations if v])
@@ -359,8 +359,11 @@ class Ctx:
             json.dump(rec, f, indent=1, default=str)
         self.violations.append(rec)
         tail = "" if found_input else " no-failing-input-found"
-        print(f"VIOLATION property={self.prop} replay={path}{tail}", flush=True)
-        print(f"  component={component} kind={kind}: {str(what or detail)[:300]}", flush=True)
+        if n < 12:
+            print(f"VIOLATION property={self.prop} replay={path}{tail}", flush=True)
+            print(f"  component={component} kind={kind}: {str(what or detail)[:300]}", flush=True)
+        elif n == 12:
+            print(f"VIOLATION property={self.prop} replay={path}{tail} (further violations are written to replays/ only)", flush=True)
 
     def broken(self, kind, what, detail):
         """A proof obligation / correspondence that no longer checks and for which
